@@ -63,6 +63,7 @@ fn sign_events<V: Fv>(proc_id: u64, seed: u64, nthreads: usize, per: usize, nkey
     all
 }
 
+static T0: std::sync::OnceLock<std::time::Instant> = std::sync::OnceLock::new();
 fn keygen_event<V: Fv>(proc_id: u64, thr: usize, seq: usize, seed: [u8; 32], tag: &str) -> Value {
     let (sk, pk) = V::keygen(seed);
     json!({"ev":"keygen","proc":proc_id,"thr":thr,"seq":seq,"n":V::N,"seed":bytes_json(&seed),
@@ -76,7 +77,11 @@ fn keygen_events<V: Fv>(proc_id: u64, seed: u64, bases: usize, flips: usize, con
     let thorough_sweep = bases >= 4; // the full 2 x 256 byte sweep only in the thorough tier
     let mut rng = rng_for(seed, &format!("keygen-{}", V::N)); // same in every process
     let mut evs = vec![];
-    let base_seeds: Vec<[u8; 32]> = (0..bases).map(|_| rng.gen()).collect();
+    let mut base_seeds: Vec<[u8; 32]> = (0..bases).map(|_| rng.gen()).collect();
+    // seeds that take the rare retry branch of key generation (corpus.rs): a retry that draws fresh entropy instead of
+    // continuing the seeded stream is only seen on such seeds
+    let ncorpus = if thorough_sweep { 8 } else if V::N == 512 { 2 } else { 1 };
+    base_seeds.extend(crate::corpus::fg_window(V::N).iter().take(ncorpus).map(|(i, _)| crate::corpus::corpus_seed(*i)));
     for (bi, base) in base_seeds.iter().enumerate() {
         evs.push(keygen_event::<V>(proc_id, 0, evs.len(), *base, "base"));
         evs.push(keygen_event::<V>(proc_id, 0, evs.len(), *base, "repeat-same-thread"));
@@ -89,6 +94,7 @@ fn keygen_events<V: Fv>(proc_id: u64, seed: u64, bases: usize, flips: usize, con
             evs.push(keygen_event::<V>(proc_id, 0, evs.len(), *base, "repeat-after-signing"));
         }
     }
+    eprintln!("[c15] n={} bases done {:?}", V::N, T0.get_or_init(std::time::Instant::now).elapsed());
     // A-B-A on one thread, and the other variant in between (a cache keyed too coarsely would answer A's key for B or B's for A)
     if base_seeds.len() >= 2 {
         evs.push(keygen_event::<V>(proc_id, 0, evs.len(), base_seeds[0], "aba"));
@@ -114,8 +120,11 @@ fn keygen_events<V: Fv>(proc_id: u64, seed: u64, bases: usize, flips: usize, con
                 s[0] = v;
                 sweep.push(s);
             }
-            for pos in [15usize, 31] {
+            for pos in 1usize..32 {
                 for v in [0u8, 1, 127, 128, 254, 255] {
+                    if !thorough_sweep && V::N == 1024 && !(pos % 8 == 7 || pos == 16) {
+                        continue;
+                    }
                     let mut s = [basev; 32];
                     s[pos] = v;
                     sweep.push(s);
@@ -133,6 +142,7 @@ fn keygen_events<V: Fv>(proc_id: u64, seed: u64, bases: usize, flips: usize, con
             evs.extend(h.join().unwrap());
         }
     }
+    eprintln!("[c15] n={} sweeps done {:?}", V::N, T0.get_or_init(std::time::Instant::now).elapsed());
     // bit flips, computed on a pool of threads; concurrently other threads sign (shared key)
     let base = base_seeds[0];
     let (bsk, _) = V::keygen(base);
@@ -159,7 +169,9 @@ fn keygen_events<V: Fv>(proc_id: u64, seed: u64, bases: usize, flips: usize, con
         handles.push(std::thread::spawn(move || {
             let mut evs = vec![];
             let mut seq = 0;
-            for bit in (t..flips).step_by(nthreads) {
+            for k in (t..flips).step_by(nthreads) {
+                // fewer than 256 flips are spread over all 32 bytes
+                let bit = if flips >= 256 { k } else { (k * (256 / flips)) / 8 * 8 + k % 8 };
                 let mut s = base;
                 s[bit / 8] ^= 1 << (bit % 8);
                 evs.push(keygen_event::<V>(proc_id, t + 1, seq, s, "bitflip"));
@@ -173,6 +185,7 @@ fn keygen_events<V: Fv>(proc_id: u64, seed: u64, bases: usize, flips: usize, con
     for h in handles {
         evs.extend(h.join().unwrap());
     }
+    eprintln!("[c15] n={} flips done {:?}", V::N, T0.get_or_init(std::time::Instant::now).elapsed());
     stop.store(true, std::sync::atomic::Ordering::Relaxed);
     for s in signers {
         let _ = s.join();
@@ -255,8 +268,10 @@ pub fn c15(args: &Args) {
     let dir = PathBuf::from(args.get_or("--out", "work/c15"));
     std::fs::create_dir_all(&dir).unwrap();
     let outs = run_children("c15", args, &dir, 2, &[]);
-    let mut evs = keygen_events::<V512>(0, seed, if thorough { 4 } else { 2 }, 256, true);
-    evs.extend(keygen_events::<V1024>(0, seed, 1, if thorough { 256 } else { 32 }, true));
+    // the two variants' histories run side by side (they are separate histories; it also mixes the variants' calls in time)
+    let h512 = std::thread::spawn(move || keygen_events::<V512>(0, seed, if thorough { 4 } else { 2 }, 256, true));
+    let h1024 = std::thread::spawn(move || keygen_events::<V1024>(0, seed, 1, if thorough { 256 } else { 32 }, true));
+    let mut evs: Vec<Value> = vec![];
     // histories that differ only in what the thread did BEFORE: a batch of seeds on a fresh thread, the same batch on a thread that
     // first generated a key of the other variant, and on a thread that first signed -- all must give identical keys (state shared
     // between the variants' key generators or between keygen and sign)
@@ -281,10 +296,35 @@ pub fn c15(args: &Args) {
             v.extend((0..count1024).map(|i| keygen_event::<V1024>(0, 44, 1 + i as usize, [i; 32], "after-other-variant")));
             v
         }));
+        // ... and on threads that first verified (an accepted and a rejected signature, both variants), first decoded keys (one
+        // failing), and first caught a panic raised inside a library call
+        hs.push(std::thread::spawn(move || {
+            let (sk, pk) = V1024::keygen([7; 32]);
+            let sig = V1024::sign(b"m", &sk);
+            let _ = V1024::verify(b"m", &sig, &pk);
+            let _ = V1024::verify(b"other", &sig, &pk);
+            let (sk5, pk5) = V512::keygen([7; 32]);
+            let sig5 = V512::sign(b"m", &sk5);
+            let _ = V512::verify(b"x", &sig5, &pk5);
+            (0..count).map(|i| keygen_event::<V512>(0, 45, i as usize, [i; 32], "after-verify")).collect::<Vec<_>>()
+        }));
+        hs.push(std::thread::spawn(move || {
+            let (sk, pk) = V512::keygen([9; 32]);
+            let mut skb = V512::sk_to_bytes(&sk);
+            let _ = V512::sk_from_bytes(&skb);
+            let _ = V512::pk_from_bytes(&V512::pk_to_bytes(&pk));
+            skb[0] ^= 0xff;
+            let _ = guarded(|| V512::sk_from_bytes(&skb));
+            let _ = guarded(|| V1024::sk_from_bytes(&skb));
+            let _ = guarded(|| falcon_rust::verif::sampler_z(0.5, 1.5, 1.2778336969128337, &mut crate::d_sampler::ScriptRng::new(vec![0u8; 5])));
+            (0..count).map(|i| keygen_event::<V512>(0, 46, i as usize, [i; 32], "after-decoding-and-caught-panic")).collect::<Vec<_>>()
+        }));
         for h in hs {
             evs.extend(h.join().unwrap());
         }
     }
+    evs.extend(h512.join().unwrap());
+    evs.extend(h1024.join().unwrap());
     let mut all = String::new();
     for e in &evs {
         all.push_str(&serde_json::to_string(e).unwrap());
